@@ -266,7 +266,8 @@ impl<'tera> VirtualMachine<'tera> {
                         } else if start.is_undefined() {
                             rendering_error!("Slice start is undefined".to_owned(), start_span)
                         } else {
-                            match start.as_i128() {
+                            // Integers above i128::MAX are clamped like any other out of range bound
+                            match start.as_i128().or(start.is_u128().then_some(i128::MAX)) {
                                 Some(n) => Some(n),
                                 None => rendering_error!(
                                     format!(
@@ -282,7 +283,8 @@ impl<'tera> VirtualMachine<'tera> {
                         } else if end.is_undefined() {
                             rendering_error!("Slice end is undefined".to_owned(), end_span)
                         } else {
-                            match end.as_i128() {
+                            // Integers above i128::MAX are clamped like any other out of range bound
+                            match end.as_i128().or(end.is_u128().then_some(i128::MAX)) {
                                 Some(n) => Some(n),
                                 None => rendering_error!(
                                     format!("Slice end must be an integer, got `{}`", end.name()),
@@ -295,7 +297,8 @@ impl<'tera> VirtualMachine<'tera> {
                         } else if step.is_undefined() {
                             rendering_error!("Slice step is undefined".to_owned(), step_span)
                         } else {
-                            match step.as_i128() {
+                            // Integers above i128::MAX are clamped like any other out of range bound
+                            match step.as_i128().or(step.is_u128().then_some(i128::MAX)) {
                                 Some(n) => Some(n),
                                 None => rendering_error!(
                                     format!("Slice step must be an integer, got `{}`", step.name()),
